@@ -1,7 +1,7 @@
 (* C06 -- Each link is validated as if it were alone.  Property theorems only. *)
 From Coq Require Import List NArith.
 From FP Require Import Model.Base Model.Rdh Model.Scanner Model.CdpRunning Model.Link Model.Collector Model.System Spec.Framing Spec.GroundTruth
-  Proofs.C03_proofs Proofs.C05_proofs Proofs.C06_proofs Proofs.C07_run Proofs.C14_proofs Proofs.C06_run.
+  Proofs.C03_proofs Proofs.C05_proofs Proofs.C06_proofs Proofs.C07_run Proofs.C14_proofs Proofs.C06_run Proofs.C06_filter.
 From FP Require Gen.Facts.
 Import ListNotations.
 Open Scope N_scope.
@@ -94,6 +94,25 @@ Proof.
   rewrite (C06_whole_run c pkts2 ff s2 sh2 e2 id ms B1 B2 B3 B4 B5 R2 Hne Hr). reflexivity.
 Qed.
 
+(* SELECTED WITH A FILTER OPTION.  Two whole runs on the same well-framed input with the same check configuration (validators per link id),
+   one without a filter and one with --filter-link id: the messages the filtered run ends with are EXACTLY the link's part of the
+   messages the unfiltered run ends with -- same messages, same offsets, same order *)
+Theorem C06_filter_equivalence : forall c1 c2 pkts id ff s1 sh1 e1 s2 sh2 e2,
+  Forall wf_pkt pkts -> N.of_nat (length pkts) < U32_MAX -> pay_all pkts < U32_MAX ->
+  (forall p, In p pkts -> layout_rp (hdr p) (p_payload p)) ->
+  (forall p r, pkts = p :: r -> known_sysid (r_system_id (hdr p)) = true) ->
+  rc_check c2 = rc_check c1 -> (forall p, disp_id (rc_check c1) p = r_link_id (c_rdh p)) ->
+  sc_filter (rc_scan c1) = None -> sc_filter (rc_scan c2) = Some (F_link id) -> sc_skip (rc_scan c2) = sc_skip (rc_scan c1) ->
+  let unit := sel (rc_check c1) id (map (mk_cdp (rc_scan c1)) (selected (rc_scan c1) 0 pkts)) in
+  unit <> [] ->
+  run_check ff c1 (serialize pkts) = R_done s1 sh1 e1 -> run_check ff c2 (serialize pkts) = R_done s2 sh2 e2 ->
+  filter (fun m => in_unitb unit (m_off m)) (k_errors s1) = k_errors s2.
+Proof.
+  exact (fun c1 c2 pkts id ff s1 sh1 e1 s2 sh2 e2 H1 H2 H3 H4 H5 H6 H7 H8 H9 H10 =>
+           c06_filter_equiv c1 c2 pkts id (eq_refl : Gen.Facts.cdp_offset_sampled_after = true) (eq_refl : Gen.Facts.error_sort_when_muted = true)
+                            H1 H2 H3 H4 H5 H6 H7 H8 H9 H10 ff s1 sh1 e1 s2 sh2 e2).
+Qed.
+
 Print Assumptions C06_dispatch_key_source_shape.
 Print Assumptions C06_dispatch_key.
 Print Assumptions C06_isolated.
@@ -102,3 +121,4 @@ Print Assumptions C06_independent.
 Print Assumptions C06_extraction.
 Print Assumptions C06_whole_run.
 Print Assumptions C06_whole_run_independent.
+Print Assumptions C06_filter_equivalence.
